@@ -53,7 +53,12 @@ class Session:
         if isinstance(v, frozenset) and not v:
             return 'Zfrozenset'
         kind = None
-        sub = {'OrderedDict': 'orddict', 'defaultdict': 'defdict', 'Counter': 'counter', 'MyList': 'mylist'}.get(type(v).__name__)
+        if type(v).__name__ == 'Gear' and v.parts == []:
+            return 'Zuserobj'       # the one no-argument instance of a user class (identity is not part of the token)
+        if type(v) is collections.deque and not v:
+            return 'Zdeque'
+        sub = {'OrderedDict': 'orddict', 'defaultdict': 'defdict', 'Counter': 'counter', 'MyList': 'mylist',
+               'MySet': 'myset'}.get(type(v).__name__)
         if sub is not None and not v:
             kind = sub
         elif isinstance(v, list):
@@ -154,6 +159,21 @@ def run_class(c, idx):
             del LOG[:]
             return 'log=[%s] get=[%s]' % (lg, ','.join(gs))
         line = 'call=ok ' + snap() + ' fac=[%s]' % ','.join(str(t) for t in CALLS)
+        if call.get('mutate'):
+            # freshness, judged by CONTENT: every list / dict / set (or subclass instance) this instance holds is
+            # mutated; a later instance built without the argument must still get an empty one
+            for g in c['getters']:
+                try:
+                    v = getattr(inst, g)
+                except BaseException:
+                    continue
+                if isinstance(v, list):
+                    v.append('m')
+                elif isinstance(v, dict):
+                    v['m'] = 1
+                elif isinstance(v, set):
+                    v.add('m')
+            del LOG[:]
         for n, vj in call.get('assign', []):
             try:
                 setattr(inst, n, build_value(vj))
@@ -165,8 +185,45 @@ def run_class(c, idx):
     return '\n'.join(out)
 
 
+def run_probe(pr):
+    """the zero-value derivation alone, on many annotations in ONE interpreter (no cache is cleared in between):
+    `_default_from_annotation(K, {'f': <annotation>}, 'f')` -> 'empty' | 'default=<token>' | 'factory=<token of a product>'"""
+    import importlib
+    importlib.import_module('dataclass_wizard.property_wizard')
+    pw = sys.modules['dataclass_wizard.property_wizard']
+    name = 'c16_probe_mod'
+    mod = types.ModuleType(name)
+    sys.modules[name] = mod
+    exec(compile(pr['header'], name + '.py', 'exec'), mod.__dict__)
+    K = mod.__dict__['K']
+    out = []
+    for src in pr['anns']:
+        ses = Session()
+        try:
+            ann = eval(src, mod.__dict__)
+            f = pw._default_from_annotation(K, {'f': ann}, 'f')
+        except BaseException as e:
+            out.append('EXC:%s' % type(e).__name__)
+            continue
+        noid = lambda t: t.split('#')[0]
+        if f.default_factory is not dataclasses.MISSING:
+            a, b = f.default_factory(), f.default_factory()
+            t = noid(ses.tok(a))
+            if a is b and t.startswith('O'):
+                t = 'SHARED' + t
+            out.append('factory=' + t)
+        elif f.default is not dataclasses.MISSING:
+            out.append('default=' + noid(ses.tok(f.default)))
+        else:
+            out.append('empty')
+    return out
+
+
 def handler(p):
-    return {'classes': [run_class(c, i) for i, c in enumerate(p['classes'])]}
+    out = {'classes': [run_class(c, i) for i, c in enumerate(p.get('classes', []))]}
+    if 'probe' in p:
+        out['probe'] = run_probe(p['probe'])
+    return out
 
 
 if __name__ == '__main__':
